@@ -4,7 +4,7 @@ import json
 from lib import vlib
 from lib.vlib import Check, tlc, tlc_parallel, vh_json_lines
 
-DEVS = ["FirstUser", "ServerKeyOnly", "ReplyServerKey", "AcceptWrong", "ShapeAccepted", "SessionCipherCached"]
+DEVS = ["FirstUser", "ServerKeyOnly", "ReplyServerKey", "AcceptWrong", "ShapeAccepted", "SessionCipherCached", "SharedKeyTable"]
 
 
 def run(tier):
@@ -34,7 +34,7 @@ def run(tier):
                 raise vlib.ToolError(o["obs"]["detail"])
             c.violation("%s: peer with server-level secret '%s', user-level secret '%s', naming %s user%s, %s message (%s): %s [%s]" %
                         (sc["cfg"], sc["sk"], sc["uk"], "its own" if sc.get("claim") != "other" else "the OTHER registered",
-                         " after a valid datagram of the same session" if sc.get("prior") else "", sc["form"], o["variant"], "; ".join(o["why"]), o["obs"]["detail"]), o)
+                         (" after a valid datagram of the same session" if sc.get("prior") else "") + {"here": "", "elsewhere": ", a credential of ANOTHER listener of the process", "elsewhere-used": ", a credential of ANOTHER listener that has already served it"}.get(sc.get("at", "here"), ""), sc["form"], o["variant"], "; ".join(o["why"]), o["obs"]["detail"]), o)
     c.add("credential_cases_replayed", len(rows))
     c.cov["cases_per_configuration"] = per
     c.assumptions += [
